@@ -24,7 +24,7 @@ RULE = (
 )
 ASSUMPTIONS = ["frozen layout / exposure tables; image order = numeric order of the ProductFileName keys"]
 BUDGET = {"quick": 120, "thorough": 1500}
-JOBS = {"quick": 2, "thorough": 16}
+JOBS = {"quick": 4, "thorough": 16}
 
 
 @st.composite
@@ -49,7 +49,7 @@ def cases(draw):
 
 
 def plan(tier):
-    n = 100 if tier == "quick" else 10000
+    n = 320 if tier == "quick" else 10000
     return [{"kind": "hyp", "name": "products", "strategy": cases(), "examples": n}]
 
 
